@@ -284,9 +284,44 @@ def check_translation(ctx):
     t = [k(util.stmt_key(s)) for s in g.body]
     tr = [s for s in g.body if isinstance(s, ast.Try)]
     problems = []
-    if len(tr) != 1 or [k(util.stmt_key(s)) for s in tr[0].body] != ['parse_tree=sympy.sympify(%s,_clash1)' % a] or \
-            not all(any(isinstance(x, ast.Raise) for x in h.body) for h in tr[0].handlers):
+    call = None
+    if len(tr) == 1 and len(tr[0].body) == 1 and isinstance(tr[0].body[0], ast.Assign) and src(tr[0].body[0].targets[0]) == 'parse_tree' \
+            and isinstance(tr[0].body[0].value, ast.Call) and src(tr[0].body[0].value.func) == 'sympy.sympify' \
+            and tr[0].body[0].value.args and src(tr[0].body[0].value.args[0]) == a:
+        call = tr[0].body[0].value
+    if call is None or not all(any(isinstance(x, ast.Raise) for x in h.body) for h in tr[0].handlers):
         problems.append('a string that does not parse is not rejected')
+    # the namespace handed to sympy must be neutral: plain symbols without assumptions (the `_clash1` table), otherwise sympy rewrites
+    # the formula while parsing (abs(x) -> x for a non-negative x, ...) and the translated tree is not the written one
+    neutral = []
+    if call is not None:
+        ns = call.args[1] if len(call.args) > 1 else None
+        for kw in call.keywords:
+            if kw.arg == 'locals':
+                ns = kw.value
+            elif kw.arg not in ('evaluate',) or not (isinstance(kw.value, ast.Constant) and kw.value.value is True):
+                neutral.append('sympify called with %s=%s' % (kw.arg, src(kw.value)))
+        if ns is None:
+            neutral.append('sympify is called without the clash table (names like E, I, S, N, Q would be read as sympy constants)')
+        else:
+            name = src(ns)
+            if name != '_clash1':
+                dfn = [x for x in ast.walk(g) if isinstance(x, ast.Assign) and any(src(t_) == name for t_ in x.targets)]
+                stores = [x for x in ast.walk(g) if isinstance(x, (ast.Assign, ast.AugAssign)) and
+                          any(isinstance(t_, ast.Subscript) and src(t_.value) == name for t_ in (x.targets if isinstance(x, ast.Assign) else [x.target]))]
+                upd = [c_ for c_ in ast.walk(g) if isinstance(c_, ast.Call) and isinstance(c_.func, ast.Attribute) and src(c_.func.value) == name
+                       and c_.func.attr in ('update', 'setdefault', 'pop', '__setitem__')]
+                if not (isinstance(ns, ast.Name) and len(dfn) == 1 and k(src(dfn[0].value)) in ('dict(_clash1)', '_clash1.copy()', '_clash1')):
+                    neutral.append('the namespace handed to sympify is %s, not the neutral symbol table _clash1' % name)
+                elif stores or upd:
+                    neutral.append('the namespace handed to sympify is modified (%s): symbols with assumptions or other objects make sympy rewrite the '
+                                   'formula while parsing' % '; '.join(util.stmt_key(x) for x in (stores + [c_ for c_ in upd])[:2]))
+    for c_ in ast.walk(g):
+        if isinstance(c_, ast.Call) and isinstance(c_.func, ast.Attribute) and c_.func.attr in ('simplify', 'expand', 'factor', 'subs', 'doit', 'nsimplify', 'refine'):
+            neutral.append('the parsed tree is transformed by %s before translation' % src(c_.func))
+    ctx.ob('R2.3-parse-neutral', 'parse_expression', call is not None and not neutral, ctx.loc('types', g),
+           'the string is parsed with the neutral symbol table only (no assumptions, no rewriting) before it is translated node by node',
+           '; '.join(neutral))
     if t[-1] != 'returnsympy_recursion(parse_tree,%s,%s)' % (g.args.args[1].arg, g.args.args[2].arg):
         problems.append('the parsed tree is not what is translated')
     ctx.ob('R2.3-rejection', 'unparsable-string', not problems, ctx.loc('types', g), 'a string sympy cannot parse raises; the parsed tree is translated', '; '.join(problems))
